@@ -125,6 +125,7 @@ static void check_all() {
 struct snap { int has_v[NV], has_b[NB]; cvm::real v[NV][3], E[NB], f[4][3], Etot; };
 static void step_and_snap(cvm::real xa, cvm::real xb, cvm::real ya, cvm::real p, cvm::real q, cvm::real r, long it, snap &S) {
   setpos(1, 0.0, 0.0, 0.0); setpos(2, xa, 0.0, 0.0); setpos(3, xa, xb, ya); setpos(4, xa + p, xb + q, ya + r);
+  for (size_t j = 0; j < px->atoms_new_colvar_forces.size(); j++) px->atoms_new_colvar_forces[j] = cvm::rvector(0.0, 0.0, 0.0);     // as every engine does at the start of a step
   px->colvars->it = it;
   int err = px->colvars->calc_colvars(); err |= px->colvars->calc_biases(); err |= px->colvars->update_colvar_forces();
   verif_assert(err == COLVARS_OK && cvm::get_error() == COLVARS_OK, "step.no_error");
@@ -190,3 +191,38 @@ static void sequence(int nops) {
 extern "C" void h_c13_seq1() { sequence(1); }
 extern "C" void h_c13_seq2() { sequence(2); }
 extern "C" void h_c13_seq3() { sequence(3); }
+
+// a bias with timeStepFactor 2 is deleted (or the module reset) on a step where it is asleep
+extern "C" void h_c13_sleeping() {
+  int how = verif_choice("how", 2);       // 0: delete the sleeping bias, 1: reset the module
+  verif_assert(px->colvars->reset() == COLVARS_OK, "reset.ok");      // the objects of the common set-up are not used here
+  px->colvars->read_config_string("units real\ncolvarsTrajFrequency 0\n");
+  std::string conf = std::string(VDEF[0]) + BDEF[0] + "harmonic {\n name s\n colvars A\n centers 1.0\n forceConstant 1.0\n timeStepFactor 2\n}\n";
+  verif_assert(px->colvars->read_config_string(conf) == COLVARS_OK, "sleeping.config_ok");
+  cvm::real xa = verif_sym_double("xa"); verif_assume((xa > 0.75) & (xa < 3.25));
+  verif_reach("sleeping");
+  snap S1, S2;
+  step_and_snap(xa, 1.0, 0.0, 0.0, 1.0, 0.0, 0, S1);
+  step_and_snap(xa, 1.0, 0.0, 0.0, 1.0, 0.0, 1, S1);       // the bias s is asleep on this step
+  verif_assert(!cvm::bias_by_name("s")->is_enabled(colvardeps::f_cvb_awake), "sleeping.is_asleep");
+  check_all();
+  if (how == 0) {
+    delete cvm::bias_by_name("s");
+    verif_assert(cvm::get_error() == COLVARS_OK, "sleeping.delete_reports_no_error");
+    px->colvars->clear_error();
+    check_all();
+    step_and_snap(xa, 1.0, 0.0, 0.0, 1.0, 0.0, 2, S1);
+    // the survivor against a module in which the deleted bias never existed
+    verif_assert(px->colvars->reset() == COLVARS_OK, "reset.ok");
+    verif_assert(px->colvars->read_config_string(std::string("units real\ncolvarsTrajFrequency 0\n") + VDEF[0] + BDEF[0]) == COLVARS_OK, "reference.config_ok");
+    step_and_snap(xa, 1.0, 0.0, 0.0, 1.0, 0.0, 2, S2);
+    verif_assert_eq(S1.v[0][0], S2.v[0][0], "identity.values");
+    verif_assert_eq(S1.E[0], S2.E[0], "identity.energies");
+    verif_assert_eq(S1.Etot, S2.Etot, "identity.total_energy");
+    for (int a = 0; a < 2; a++) for (int k = 0; k < 3; k++) verif_assert_eq(S1.f[a][k], S2.f[a][k], "identity.atom_forces");
+  } else {
+    int err = px->colvars->reset();
+    verif_assert(err == COLVARS_OK && cvm::get_error() == COLVARS_OK, "sleeping.reset_reports_no_error");
+    for (size_t j = 0; j < px->atoms_refcount.size(); j++) verif_assert(px->atoms_refcount[j] == 0, "reset.releases_atoms");
+  }
+}
